@@ -199,9 +199,11 @@ func zzH_C06_batch() {
 		} else {
 			k = keys[j] // directed: touch a base key
 		}
-		var v []byte
+		var v []byte // a deletion is requested by a nil value ...
 		if zzNondetBool() {
 			v = zzVal()
+		} else if zzNondetBool() {
+			v = []byte{} // ... or by an empty, non-nil one
 		}
 		bk, bv = append(bk, k), append(bv, v)
 	}
